@@ -89,6 +89,8 @@ def check_value(rep, net, arrays, tree, step, exact, label="value"):
 def applicable(tree, op):
     name = op["op"]
     if name == "remove_ind":
+        if op.get("expect_refusal"):
+            return op["ind"] in tree.sliced_inds
         return op["ind"] not in tree.sliced_inds
     if name == "restore_ind":
         return op["ind"] in tree.sliced_inds
